@@ -304,7 +304,16 @@ where
                                 let tx_permit = match tx.reserve().await {
                                     Ok(tx_permit) => tx_permit,
                                     _ => {
-                                        break Ok(());
+                                        // The deserializer has ended without waiting for the end of
+                                        // the message. Its result only counts if the sender completes
+                                        // the message, thus skip to its end.
+                                        break loop {
+                                            match self.receiver.recv_chunk().await {
+                                                Ok(Some(_)) => (),
+                                                Ok(None) => break Ok(()),
+                                                Err(err) => break Err(FeedError::RecvChunkError(err)),
+                                            }
+                                        };
                                     }
                                 };
 
